@@ -12,6 +12,9 @@ mod dbsmall;
 mod gen_types;
 mod rng;
 mod sexp;
+mod watch;
+#[cfg(all(agdb_verif, feature = "h1_multimap"))]
+mod omaprun;
 #[cfg(agdb_verif)]
 mod walrun;
 #[cfg(agdb_verif)]
@@ -145,6 +148,8 @@ fn main() {
                 maintenance: arg(&args, "--maintenance", "0") == "1",
                 dir: out.clone(),
             };
+            // C19: per-step watchdog (exit code 3 + oracle line `timeout ...` when one step exceeds the limit)
+            watch::start(arg(&args, "--watchdog-ms", "0").parse().unwrap(), format!("{}/oracle.txt", out));
             let mut o = dbrun::Out::new();
             let mut r = rng::Rng::new(seed);
             for h in 0..n {
@@ -169,6 +174,20 @@ fn main() {
             };
             let mut o = dbrun::Out::new();
             dbsmall::run(&opts, &mut o);
+            write_lines(&format!("{}/cases.txt", out), &o.cases);
+            write_lines(&format!("{}/impl.txt", out), &o.imp);
+            write_lines(&format!("{}/oracle.txt", out), &o.oracle);
+            write_stats(&format!("{}/stats.json", out), &o.stats, o.histories, o.nontrivial, &o.samples);
+        }
+        #[cfg(all(agdb_verif, feature = "h1_multimap"))]
+        "omap" => {
+            let steps: usize = arg(&args, "--steps", "200").parse().unwrap();
+            let mut o = omaprun::Out { cases: vec![], imp: vec![], oracle: vec![], stats: BTreeMap::new(), samples: vec![], nontrivial: 0, histories: 0 };
+            let mut r = rng::Rng::new(seed);
+            for _ in 0..n {
+                let mut hr = r.fork();
+                omaprun::run_history(&mut hr, steps, &mut o);
+            }
             write_lines(&format!("{}/cases.txt", out), &o.cases);
             write_lines(&format!("{}/impl.txt", out), &o.imp);
             write_lines(&format!("{}/oracle.txt", out), &o.oracle);
